@@ -104,6 +104,8 @@ func mkHandler(id int, b refmodel.Behaviour, log *[]refmodel.Event) rux.HandlerF
 				c.AddError(errors.New("recorded"))
 			case refmodel.SWrite:
 				c.WriteString("x")
+			case refmodel.SWriteStr:
+				_, _ = io.WriteString(c.Resp, "x")
 			case refmodel.SProbe:
 				*log = append(*log, refmodel.Event{Kind: "probe", H: id, Aborted: c.IsAborted()})
 			case refmodel.SReturn:
